@@ -331,7 +331,7 @@ fn c04_q_spsc_async_pending_send_rx_gone() {
 /// Same for a pending send_batch: Closed hands every unsent value back, in order.
 #[kani::proof]
 #[kani::unwind(5)]
-fn c04_t_spsc_async_pending_send_batch_rx_gone() {
+fn c04_q_spsc_async_pending_send_batch_rx_gone() {
   let (mut tx, rx) = spsc::bounded_async::<u8>(1);
   assert!(tx.try_send(1).is_ok(), "C03: prefill failed");
   let mut f = Some(tx.send_batch(vec![10, 11]));
